@@ -38,9 +38,15 @@ def run(prog: Program, rep, tier: str) -> None:
     x = ExcFlow(prog)
     c07.failure_result(prog, rep, x)
     n = 0
+    n_ctrl = 0
     for name, q in CONTROLLERS.items():
-        n += rejection_paths(prog, rep, name, prog.func(q + ".step"))
-    rep.pin("StepControlResult construction sites in the four controllers", n, 9)
+        k = rejection_paths(prog, rep, name, prog.func(q + ".step"))
+        if k == 0:
+            raise AnalysisError(f"{q}.step: no StepControlResult construction recognised")
+        n += k
+        n_ctrl += 1
+    rep.pin("controller step methods whose every result construction was examined", n_ctrl, 4)
+    rep.note(f"StepControlResult construction sites examined: {n}")
     chaining(prog, rep)
     c08.only_accepted_carried(prog, rep)
     exact_gate(prog, rep)
@@ -98,18 +104,38 @@ def rejection_paths(prog: Program, rep, cname: str, step: FuncInfo) -> int:
             rep.check(sf is not None, "rejection-shrinks", step.qualname, short(r),
                       f"a rejected result carries a strictly larger inverse step size k*(1/dt), k>1 (found {U(v)[:80]})", step.loc(r))
             continue
-        # acceptance decided by an expression: find the stores of the lambda variable on the rejecting branch
+        # acceptance decided by an expression: find the stores of the lambda variable on the rejecting branch.  The flag may be
+        # defined in several places (`accepted = True` on an early-success branch, `accepted = <test>` elsewhere); every definition
+        # d contributes (facts of d, value of d) and a lambda store belongs to d when it lies in d's region (facts of d hold there).
         acc_res = ff.resolved(r, acc)
-        acc_atoms = atoms_of(acc_res, True)
-        neg_atoms = atoms_of(acc_res, False)
         if not isinstance(lam, ast.Name):
             rep.fail("rejection-shrinks", step.qualname, short(r), "VIOLATED: lambda of a conditionally accepted result is not a variable assigned per branch", step.loc(r))
             continue
+        if isinstance(acc, ast.Name):
+            flag_defs = [(q.facts, ff.resolved(q.stmt, q.stmt.value), q) for q in ff.order if isinstance(q.stmt, ast.Assign) and len(q.stmt.targets) == 1
+                         and isinstance(q.stmt.targets[0], ast.Name) and q.stmt.targets[0].id == acc.id and q.index < si.index]
+            if not flag_defs:
+                raise AnalysisError(f"{step.short}: the acceptance flag `{acc.id}` has no definition before the return")
+        else:
+            flag_defs = [(si.facts, acc_res, si)]
         stores = [s for s in ff.order if isinstance(s.stmt, ast.Assign) and any(isinstance(t, ast.Name) and t.id == lam.id for t in s.stmt.targets) and s.index < si.index]
-        rejecting = [s for s in stores if all(a in s.facts for a in neg_atoms)]
-        accepting = [s for s in stores if all(a in s.facts for a in acc_atoms)]
+        rejecting, accepting = [], []
+        for s in stores:
+            for dfacts, dval, dq in flag_defs:
+                if not all(f in s.facts for f in dfacts):
+                    continue
+                if isinstance(dval, ast.Constant) and dval.value is True:
+                    accepting.append(s)
+                elif isinstance(dval, ast.Constant) and dval.value is False:
+                    rejecting.append(s)
+                else:
+                    if all(a in s.facts for a in atoms_of(dval, False)):
+                        rejecting.append(s)
+                    elif all(a in s.facts for a in atoms_of(dval, True)):
+                        accepting.append(s)
+        nonconst = [d for d in flag_defs if not isinstance(d[1], ast.Constant)]
         unguarded = [s for s in stores if s not in rejecting and s not in accepting and s.facts == si.facts]
-        rep.check(bool(rejecting) and not unguarded, "rejection-shrinks", step.qualname, short(r),
+        rep.check((bool(rejecting) or not nonconst) and not unguarded, "rejection-shrinks", step.qualname, short(r),
                   f"the lambda of a conditionally accepted result is assigned separately on the rejecting branch (not {U(acc_res)[:60]})", step.loc(r))
         for s in rejecting:
             v = ff.resolved(s.stmt, s.stmt.value)
